@@ -154,12 +154,17 @@ fn build(input: &str, copies: usize, k: usize, r: &mut Rng, c: &Ctxt) -> Option<
             }
             eff_signed = signed.clone();
             for i in 0..copies {
-                let ti = if i == k {
-                    t_good
+                // the other copies: another instant, or a blank value (a blank first occurrence is still the first)
+                let v: Vec<u8> = if i == k {
+                    t_good.compact().into_bytes()
                 } else {
-                    t_other.plus_s(i as i64)
+                    match r.below(4) {
+                        0 => Vec::new(),
+                        1 => b"  ".to_vec(),
+                        _ => t_other.plus_s(i as i64).compact().into_bytes(),
+                    }
                 };
-                headers.push((b"x-amz-date".to_vec(), ti.compact().into_bytes()));
+                headers.push((b"x-amz-date".to_vec(), v));
             }
             headers.push((b"authorization".to_vec(), auth(&good_cred, &signed, PLACEHOLDER).into_bytes()));
             documented = 0;
@@ -172,7 +177,13 @@ fn build(input: &str, copies: usize, k: usize, r: &mut Rng, c: &Ctxt) -> Option<
             } else {
                 (t_other, t_good)
             };
-            let x = (b"x-amz-date".to_vec(), tx.compact().into_bytes());
+            let x_val: Vec<u8> = if k == 1 && r.chance(1, 3) {
+                // a blank X-Amz-Date is still the X-Amz-Date header: Date must not take over
+                b" ".to_vec()
+            } else {
+                tx.compact().into_bytes()
+            };
+            let x = (b"x-amz-date".to_vec(), x_val);
             let d = (b"date".to_vec(), td.compact().into_bytes());
             if r.coin() {
                 headers.push(x);
@@ -197,8 +208,14 @@ fn build(input: &str, copies: usize, k: usize, r: &mut Rng, c: &Ctxt) -> Option<
             }
             signed.sort();
             eff_signed = signed.clone();
-            for _ in 0..copies {
-                headers.push((b"x-amz-security-token".to_vec(), gen_token(r).into_bytes()));
+            for i in 0..copies {
+                let tok = if i == 0 && r.chance(1, 4) {
+                    // a blank first token header is still the first
+                    String::new()
+                } else {
+                    gen_token(r)
+                };
+                headers.push((b"x-amz-security-token".to_vec(), tok.into_bytes()));
             }
             headers.push((b"authorization".to_vec(), auth(&good_cred, &signed, PLACEHOLDER).into_bytes()));
             documented = 0;
